@@ -676,12 +676,19 @@ def selection_check(case, res):
 # ---------------------------------------------------------------------------------------------
 
 def run(ctx, rep, cases=None):
-    rep.rule = ("domain expressions generated from the public constructors (primitives incl. slanted / clockwise / parameter-dependent "
+    rep.rule = ("(a) domain expressions generated from the public constructors (primitives incl. slanted / clockwise / parameter-dependent "
                 "ones, their boundaries, union / cut / intersection / translate / rotate nestings of depth <= 3 (thorough 4), products incl. "
                 "dependent ones), every Boolean node certified to have positive measure; sampled through Domain.sample_random_uniform / "
                 "sample_grid (n or density) and the point samplers (uniform, grid, filtered, Gaussian, LHS, adaptive) with 0-3 parameter rows; "
-                "non-trivial = operation node or parameter dependence or boundary; distinct = distinct (expression, call, parameter rows)")
+                "non-trivial = operation node or parameter dependence or boundary; distinct = distinct (expression, call, parameter rows); "
+                "(b) oracle-only streams (harness/c01_opaque.py): ShapelyPolygon (convex / star / dart / rectilinear / with hole), TrimeshPolyhedron, Point, "
+                "polygons in cut / intersection / union / motions / products with modelled shapes, composed samplers (append, +, *, static, filtered) "
+                "over parameter-dependent domains with >= 2 parameter rows judged with the parameter columns of the same row")
     if cases is None:
+        # oracle-only streams: ShapelyPolygon / TrimeshPolyhedron / Point (exact membership oracles in the harness),
+        # polygons inside operations, composed samplers with the own-row oracle
+        import c01_opaque
+        c01_opaque.run(ctx, rep)
         cases = []
         want = ctx.scale(600, 6000)
         i = 0
@@ -871,6 +878,10 @@ def replay(ctx, obj):
     rep = common.Report(ctx)
     lean = common.lean_check("C01")
     inp = (obj.get("failing_input") or obj.get("first"))["input"]
+    if "stream" in inp:
+        import c01_opaque
+        c01_opaque.run(ctx, rep, [inp])
+        return common.finish(ctx, rep, lean)
     case = dict(id=0, mode=inp["mode"], dom=inp["dom"], params=inp["params"], prows=inp["prows"], call=inp["call"], seed=inp["seed"])
     run(ctx, rep, [case])
     return common.finish(ctx, rep, lean)
